@@ -30,7 +30,11 @@ def _rel(op, x, c):
             "Eq": {("eq", xs, c)}, "Ne": {("ne", xs, c)}}[op]
 
 def _range_const(t):
-    """RangeInclusive<u32> constant as printed bytes: start, end little-endian u32 + exhausted flag."""
+    """RangeInclusive<u32> constant as printed bytes: start, end little-endian u32 + exhausted flag; or the same range built at
+    run time with RangeInclusive::new(lo, hi) from two integer constants."""
+    if isinstance(t, tuple) and len(t) == 3 and t[0] == "call" and re.search(r"RangeInclusive::<u(32|64)>::new$", t[1]) and len(t[2]) == 2 \
+            and _int(t[2][0]) and _int(t[2][1]):
+        return t[2][0][1], t[2][1][1]
     if isinstance(t, tuple) and len(t) == 2 and t[0] in ("b", "bytes") and isinstance(t[1], (bytes, bytearray)) and len(t[1]) >= 8:
         b = bytes(t[1])
         return int.from_bytes(b[0:4], "little"), int.from_bytes(b[4:8], "little")
